@@ -9,6 +9,9 @@
 #include "a14.h"
 #include "rkcommon/containers/AlignedVector.h"
 #include "rkcommon/memory/malloc.h"
+#ifdef RKCOMMON_TASKING_TBB
+extern "C" size_t scalable_msize(void *);
+#endif
 
 using namespace rkcommon;
 
@@ -280,6 +283,43 @@ void edge_requests()
     a.deallocate(p, a.max_size());
   } catch (const std::bad_alloc &) {
     a14_probe(P_BADALLOC_THROWN);
+  }
+  // byte counts around 2^31 and 2^32 (the simulated machine refuses them): the allocator must ask
+  // its back end for at least the bytes the caller asked for
+  {
+    static const unsigned long long totals[] = {(1ULL << 31) + 64, (1ULL << 32) - 64, 1ULL << 32, (1ULL << 32) + 64, (1ULL << 32) + 4096, (1ULL << 33) + 128};
+    for (unsigned long long bytes : totals) {
+      size_t n = (size_t)(bytes / sizeof(Blob<16>));
+      a14_probe(P_HUGE_REQUEST);
+      Blob<16> *p = nullptr;
+      simalloc_window(1);
+      try {
+        p = a.allocate(n);
+      } catch (const std::bad_alloc &) {
+        a14_probe(P_BADALLOC_THROWN);
+      }
+      simalloc_window(0);
+#ifdef RKCOMMON_TASKING_TBB
+      if (p) {
+        if (scalable_msize(p) < bytes) {
+          a14_fail("C14:block-smaller-than-requested", "allocate(n) returned a block that is smaller than n elements");
+          return;
+        }
+        p[0] = Blob<16>::make(1);
+        p[n - 1] = Blob<16>::make(2);
+        a.deallocate(p, n);
+      }
+#else
+      if (p) {
+        a14_fail("C14:block-smaller-than-requested", "allocate(n) returned a pointer although its back end granted no block of that size");
+        return;
+      }
+      if (simalloc_last_size() < bytes) {
+        a14_fail("C14:block-smaller-than-requested", "allocate(n) asked its back end for fewer bytes than n elements need");
+        return;
+      }
+#endif
+    }
   }
   auto *q = a.allocate(3);
   if (!memory::isAligned(q, 64)) {
